@@ -191,7 +191,7 @@ func TestVerifReplay(t *testing.T) {
             ck.violation('zBytes', 'curve parameter block differs from the standard', path)
         else:
             ck.encoder_mismatch('curve_parameter_block', (out or '')[-200:])
-    if wfail:
+    if True:
         names = sorted(set(n for _, r in wfail for n in r))
         # replay: wrappers against the reference built from the digest-level functions
         dv = ck.rng.randrange(1, N - 1)
@@ -227,17 +227,29 @@ func TestVerifReplay(t *testing.T) {
 		if ok, err := Verify(eid, px, py, msg, rE, sE); !ok || err != nil { t.Fatalf("Verify with an id of %%d bytes rejects the signature made for that id", len(eid)) }
 		if ok, _ := Verify(id, px, py, msg, rE, sE); ok { t.Fatalf("Verify accepts a signature made for a different id") }
 	}
+	// arguments that are adjacent sub-slices of one buffer (za||px||py||msg): the wrappers must not depend on, or write to,
+	// whatever lies behind an argument
+	{
+		zaS, _ := ZA(id, px, py)
+		buf := append(append(append(append([]byte{}, zaS...), px...), py...), msg...)
+		zb, xb, yb, mb := buf[0:32:len(buf)], buf[32:64:len(buf)], buf[64:96:len(buf)], buf[96:len(buf):len(buf)]
+		if ok, err := VerifyZa(xb, yb, zb, mb, r, s); !ok || err != nil { t.Fatalf("VerifyZa with adjacent argument slices: ok=%%v err=%%v", ok, err) }
+		if ok, err := Verify(id, xb, yb, mb, r, s); !ok || err != nil { t.Fatalf("Verify with adjacent argument slices: ok=%%v err=%%v", ok, err) }
+		if !bytes.Equal(buf, append(append(append(append([]byte{}, zaS...), px...), py...), msg...)) { t.Fatalf("a wrapper modified the buffer its arguments live in") }
+	}
 	long := make([]byte, 8192)
 	if _, _, err := Sign(long, px, py, &verifReader{b: %s}, priv, msg); err == nil { t.Fatalf("Sign accepts 8192-byte id") }
 	if ok, err := Verify(long, px, py, msg, r, s); ok || err == nil { t.Fatalf("Verify accepts 8192-byte id") }
 }''' % (go_bytes(idv), go_bytes(b32(pub[0])), go_bytes(b32(pub[1])), go_bytes(msg), go_bytes(b32(dv)), go_bytes(b32(kv)), go_bytes(b32(r_)), go_bytes(b32(s_)), go_bytes(b32(kv)), go_bytes(b32(kv)), go_bytes(b32(kv)))
         ok, out, path = ck.go_test('sm2', src, name='wrappers')
         if ok is False:
-            ck.record('wrappers', 'violated', 'entry points %s do not behave like the digest-level functions at e = SM3(ZA||M)' % names)
-            ck.violation('wrappers:' + ','.join(names), 'id/message-level entry points differ from digest-level ones', path)
-        else:
+            ck.record('wrappers', 'violated', 'entry points %s do not behave like the digest-level functions at e = SM3(ZA||M): %s' % (names or 'Sign/Verify/SignZa/VerifyZa', (out or '')[-200:].replace('\n', ' ')))
+            ck.violation('wrappers:' + ','.join(names or ['replay']), 'id/message-level entry points differ from digest-level ones', path)
+        elif wfail:
             ck.record('wrappers', 'inconclusive', 'symbolic mismatch for %s not reproduced on the standard vector' % names)
-    else:
+        elif ok is True:
+            ck.validated += 1
+    if not wfail and not any(k.startswith('wrappers') for k, _, _ in ck.violations):
         ck.record('wrappers', 'proved', 'Sign/SignZa/Verify/VerifyZa call the digest-level function with e = H(ZA-digest || M), pass rand/priv/r/s through unchanged, and refuse over-long ids')
 
     # concrete validation on the real build (standard vector + random)
